@@ -387,7 +387,7 @@ func c04Refusals(c *Ctx) {
 		n := 0
 		for _, b := range f.Blocks {
 			ret, ok := an.AsReturn(b.Instrs[len(b.Instrs)-1])
-			if !ok || len(ret.Results) != 2 || !an.MayBeNilConst(an.RetVal(ret, 0)) {
+			if !ok || len(ret.Results) != 2 || !an.MayReturnNil(ret, 0) {
 				continue
 			}
 			n++
